@@ -15,7 +15,8 @@ EXPLANATION = (
     "protocol of MinPathCover.solve / MinPathCoverCycles.solve on all paths (start at the lower bound, ascend by one, next k only after "
     "infeasible, True only with a proven model, publish that model's solution); (R3) the k-range reaches |E|; (R4) every get_width call "
     "that feeds k or a lower bound ignores the receiver's synthetic source/sink edges together with the model's ignore set (the convention "
-    "the property states); (R5) the cached width is stored and returned only under the 'no edges to ignore' test.  NOT decided: cover "
+    "the property states); (R5) the cached width is stored and returned only under the 'no edges to ignore' test; (R6) the per-walk repetition cap of the walk cover model is the tabled provider "
+    "|E|*|V| and caps are only lowered to 1 for non-SCC edges (a smaller cap makes k = width infeasible).  NOT decided: cover "
     "optimality, width == minimum (min-max identity), correctness of the min-cost-flow reduction."
 )
 DECIDED = ["cover constraints present for every non-ignored edge", "search protocol and range of both minimum cover searches",
@@ -109,3 +110,7 @@ def check(prog: Program, rep):
     width_calls(prog, rep, "C09.R4")
     rep.rule("C09.R5", "width cache key", floor=4)
     width_cache(prog, rep, "C09.R5")
+    rep.rule("C09.R6", "walk covers: per-edge repetition cap provider and overwrite discipline (shared with C04.R5); walk-shape rows", floor=5)
+    from rules.c04 import repetition_caps
+    from rules.common import RuleProxy
+    repetition_caps(prog, RuleProxy(rep, "C09.R6"), "C04.R5")
